@@ -20,6 +20,10 @@ CHECKS = {
    technique="stateless model checking of the implementation: deviation-bounded exhaustive enumeration of thread interleavings under a controlled scheduler with virtual time",
    text="The real modules and log packages are compiled from a source-instrumented copy in which every mutex, atomic, abool, channel, select and go operation is a scheduling point of a controlled scheduler that models blocking and virtual time. For ~200 closed drivers ({single module, dependent+dependency, cross-module hook source} x {Shutdown, Disable+ManageModules} x work-item multisets of size <= 2 over worker, service worker, queued task, high/medium/low/signalled microtask, own and cross-module event hook x stop-routine variants) every schedule with at most 2 (thorough 3) deviations from the default scheduler is executed, each from a freshly reset world, and checked: context cancelled before the stop routine runs, the module leaves Stopping / the dependency's stop routine begins / the trigger returns only after the stop routine and all work returned, no waiting out the stop timeout (virtual clock), nothing new runs on the stopped module, no deadlock, no uncontained panic.",
    note="Trusted: the scheduler's model of Go synchronisation (shim/, validated by selftests with known interleaving counts), sequential consistency, data-race freedom outside instrumented operations, RWMutex without writer preference. Preemptions are only placed at synchronisation operations issued by package modules and at harness events (operations inside package log switch threads only when they block); bound = deviations from the deterministic default scheduler (delay bounding). Drivers larger than 2 work items / 3 modules are not covered."),
+ "C01": dict(engine="S", category="model_checking", design_ref="DESIGN.md §2, §6 C01",
+   technique="stateless model checking of the implementation: deviation-bounded exhaustive enumeration of thread interleavings under a controlled scheduler with virtual time",
+   text="For every dependency graph on <= 3 modules, with no fault or exactly one prep/start/stop callback returning an error or panicking, and with module management for every initial enabled set and one further round with every other set (673 closed drivers; history Start [-> ManageModules] -> Shutdown), every schedule of the source-instrumented modules package with at most 2 (3 modules: 1) deviations from the default scheduler is executed from a freshly reset world. Checked in the callbacks and at every return: start only after all dependencies finished starting successfully and are not stopping; stop only after every started dependent completely stopped and is offline; prep once, before any start, after the dependencies' prep; Start/ManageModules == nil implies exactly the wanted set is online; when Shutdown returns (and again once idle) no module is online and stops == successful starts per module; no deadlock, no uncontained panic.",
+   note="Trusted: the scheduler's model of Go synchronisation (shim/, selftests), sequential consistency, data-race freedom outside instrumented operations. Operations inside package log are switch points only when they block; map iteration over the module registry is in ascending name order. Graphs with more than 3 modules, more than one fault, and more than two management rounds are not covered."),
 }
 
 NOT_BUILT_REASON = "check not built yet (work in progress; planned, see DESIGN.md section 6)"
